@@ -136,8 +136,32 @@ static void run(const vf::Args& a, vf::Evidence& ev, vf::Reporter& rep) {
             "Oracle: no TSan report (halt_on_error), values equal a single-threaded re-execution, loaders of one name hold equal "
             "zones. Non-trivial = at least two threads were inside load_time_zone at the same time (observed); distinct by workload.";
   const char* d = getenv("TZDIR"); const std::string base = d ? d : "/repo/testdata/zoneinfo";
-  long budget = a.budget(500, 5000);
+  long budget = a.budget(250, 5000);
   int wl = 0;
+  {
+    // The very first loads of the process (no zone map exists yet): 8 threads, overlapping and distinct fresh names.
+    // Each shard process contributes one such sample (state that only exists once per process).
+    Workload w; w.id = a.shard * 100000;
+    for (int i = 0; i < 5; ++i) w.names.push_back("mem:c13/first/" + std::to_string(a.shard) + "/" + std::to_string(i) + (i == 3 ? "/missing" : "/valid"));
+    for (int t = 0; t < 8; ++t) {
+      std::vector<Op> ops;
+      ops.push_back(Op{0, t % 5, 0});
+      ops.push_back(Op{1, t % 5, 1700000000 + t * 1000000});
+      ops.push_back(Op{0, (t + 1) % 5, 0});
+      ops.push_back(Op{2, (t + 2) % 5, -1000000000 + t * 7777777});
+      w.threads.push_back(ops);
+    }
+    register_names(w);
+    const vf::Case c = to_case(w);
+    vf::CurrentScope cur([&]() { return c; });
+    std::string why; bool overlapped = false;
+    alarm(180);
+    const bool ok = run_workload(w, &why, &overlapped);
+    alarm(0);
+    ev.eval(32); ev.cls("first_loads_of_the_process_workload");
+    if (overlapped) ev.nt(vf::fnv(c.serialize()));
+    if (!ok) { rep.failing(c, why); rep.commit(); }
+  }
   vf::rc_run("C13.workloads", a.stream_seed(1), (int)budget, rep, [&]() {
     Workload w; w.id = a.shard * 100000 + (++wl);
     const int nnames = *vf::range<int>(1, 6);
